@@ -84,11 +84,12 @@ def evaluate(case):
     return ev
 
 
-def compare_with_model(ctx, suite, cases, evals, tol=3e-7):
+def compare_with_model(ctx, suite, cases, evals, tol=3e-7, twins=None):
     reqs = [["merge", case["nq"], ev["pre"]] for case, ev in zip(cases, evals)]
     mres = model.call_many(reqs)
     eqs = []
-    for case, ev, (margin, r) in zip(cases, evals, mres):
+    for case, ev, (margin, r), twin in zip(cases, evals, mres, twins or [False] * len(cases)):
+        case = recorded(case, twin)
         merr, mpost = implrun.model_outcome(["merge"], r)
         d = None
         if (ev["err"] is None) != (merr is None):
@@ -218,17 +219,17 @@ def run_suites(ctx, oracle_fn, with_second=False):
         ctx.suite(name, cases=len(cases), **({"max_length": kmax, "alphabet": len(ALPHABET)} if name == "exhaustive" else {}))
         for i in range(0, len(cases), 2000):
             chunk = cases[i:i + 2000]
-            evals = []
+            evals, twins = [], []
             for c in chunk:
                 ev = evaluate_first(c)
                 evals.append(ev)
-                implrun.history_twin(lambda c=c: gen.build_circuit(c["nq"], c["nb"], c["specs"]), [["merge"]], ctx.rng)
-            eqs = compare_with_model(ctx, name, chunk, evals)
-            for case, ev, eq in zip(chunk, evals, eqs):
+                twins.append(implrun.history_twin(case_builder(c), [["merge"]], ctx.rng))
+            eqs = compare_with_model(ctx, name, chunk, evals, twins=twins)
+            for case, ev, eq, twin in zip(chunk, evals, eqs, twins):
                 nrot = sum(1 for s in case["specs"] if s[0] in ("bsr",) or (s[0] == "named" and s[1] in gen.ONEQ_NOPARAM + gen.ONEQ_PARAM))
                 ctx.seen(case, nrot >= 1)
                 ctx.bump(f"rotations_{min(nrot, 6)}")
-                oracle_fn(ctx, name, case, ev, eq)
+                oracle_fn(ctx, name, recorded(case, twin), ev, eq)
             if chunk:
                 ctx.sample({"specs": chunk[len(chunk) // 2]["specs"], "post_len": len(evals[len(chunk) // 2]["post"])})
 
@@ -245,3 +246,43 @@ def evaluate_first(case):
         err2, _ = implrun.run_impl(c, ["merge"])
         ev.update({"err2": err2, "after2": list(c.ir.statements)})
     return ev
+
+
+def case_builder(case):
+    return lambda: gen.build_circuit(case["nq"], case["nb"], case["specs"])
+
+
+def recorded(case, twin):
+    """the case as it is written to a replay file: with the history the run added to it (its twin was run after it)"""
+    return {**case, "twin": True} if twin else case
+
+
+def replay(ctx, payload, oracle_fn):
+    """one case of the exhaustive / random suites again: merge twice, twin (when the run had run one), model, oracle"""
+    from harness import framework
+    from harness.props import sem_common
+
+    suite, case = framework.replay_target(payload)
+    if case is None:
+        return framework.replay_nothing(payload)
+    if sem_common.is_semantics(suite, case):
+        return sem_common.replay(ctx, case)
+    suite = suite or "replay"
+    ev, eq = replay_once(ctx, suite, case, oracle_fn)
+    history = "as recorded"
+    if not (ctx.oracle_failures or ctx.disagreements):
+        # the history a single record cannot carry: the twins of EARLIER cases. A twin of the case itself, run first,
+        # stands for them; a library without state shared between circuits cannot tell the difference
+        implrun.run_twin(case_builder(case), [["merge"]])
+        ev, eq = replay_once(ctx, suite, case, oracle_fn)
+        history = "the case passes on its own: run again after a twin of the same circuit (merged, then qubits relabelled)"
+    return framework.replay_result(ctx, impl_error=ev["err"], post=ev["post"], impl_eq_model=eq, history=history)
+
+
+def replay_once(ctx, suite, case, oracle_fn):
+    ev = evaluate_first(case)
+    if case.get("twin"):
+        implrun.run_twin(case_builder(case), [["merge"]])
+    eqs = compare_with_model(ctx, suite, [case], [ev])
+    oracle_fn(ctx, suite, case, ev, eqs[0])
+    return ev, eqs[0]
